@@ -137,7 +137,6 @@ func runC07(ctx *Ctx) {
 	}
 	if !ctx.IsChild() {
 		ctx.Fork(Workers())
-		seqShard, seqShards = 0, 1 // the remaining (small) parts run on one goroutine: the code under test is never entered concurrently
 	} else {
 		l := r.Local()
 		for i := range dims {
@@ -171,8 +170,10 @@ func runC07(ctx *Ctx) {
 			}
 		}
 		l.Merge()
-		return
+		// the remaining parts are spread over the shard processes too (each part sequential inside one shard)
+		seqShard, seqShards = ctx.Shard, ctx.NShards
 	}
+	inShard := func(k int) bool { return ctx.IsChild() && ctx.Shard == k%ctx.NShards }
 	// long messages (NAS containers go up to 64K): lengths around powers of two, reduced parameters
 	var longLens []int
 	top := 8192
@@ -183,25 +184,28 @@ func runC07(ctx *Ctx) {
 		longLens = append(longLens, n-1, n, n+1, n+3, n+4)
 	}
 	longLens = append(longLens, 1500, 2000, 3000, 5000)
-	ParallelFor(r, len(longLens)*len(algs), func(l *report.Local, i int) {
-		n, a := longLens[i/len(algs)], algs[i%len(algs)]
-		for _, dir := range []uint8{0, 1} {
-			for _, c := range []uint32{0, 0xffffff} {
-				o := c07op{a, keys[2], c, 1, dir, n, 2}
-				out, key, detail := c07run(o)
-				l.CaseN(true, report.H(out))
-				if key != "" {
-					if len(detail) > 300 {
-						detail = detail[:300]
+	if ctx.IsChild() {
+		ParallelFor(r, len(longLens)*len(algs), func(l *report.Local, i int) {
+			n, a := longLens[i/len(algs)], algs[i%len(algs)]
+			for _, dir := range []uint8{0, 1} {
+				for _, c := range []uint32{0, 0xffffff} {
+					o := c07op{a, keys[2], c, 1, dir, n, 2}
+					out, key, detail := c07run(o)
+					l.CaseN(true, report.H(out))
+					if key != "" {
+						if len(detail) > 300 {
+							detail = detail[:300]
+						}
+						viol(o, key+"/long", detail)
 					}
-					viol(o, key+"/long", detail)
 				}
 			}
-		}
-	})
-	r.Set("long_lengths", longLens)
-	r.Sample(c07op{1, keys[2], 0xff, 1, 0, 8, 2}.String())
-	r.Sample(c07op{11, keys[1], 0xffffffff, 31, 1, maxLen, 1}.String())
+		})
+	} else {
+		r.Set("long_lengths", longLens)
+		r.Sample(c07op{1, keys[2], 0xff, 1, 0, 8, 2}.String())
+		r.Sample(c07op{11, keys[1], 0xffffffff, 31, 1, maxLen, 1}.String())
+	}
 
 	// Part 2: operation sequences (history independence). Sequential: the order is the point.
 	var ops []c07op
@@ -231,10 +235,65 @@ func runC07(ctx *Ctx) {
 			rec(append(seq, i), depth)
 		}
 	}
-	rec(nil, 3)
-	l.Merge()
-	r.Set("operation_sequences", seqs)
-	r.Sample("sequence: " + ops[0].String() + " ; " + ops[7].String() + " ; " + ops[0].String())
+	if inShard(1) {
+		rec(nil, 3)
+		l.Merge()
+		r.Add("operation_sequences", int64(seqs))
+	} else if !ctx.IsChild() {
+		r.Sample("sequence: " + ops[0].String() + " ; " + ops[7].String() + " ; " + ops[0].String())
+	}
+
+	// Part 2b: key populations. Every one of N distinct keys is used once, then every key again, then again in reverse
+	// order (a bounded memo of key schedules or per-key objects that evicts or indexes wrongly is only wrong for a key
+	// that comes back after enough other keys). N is above the usual table sizes 256 / 1024 / 4096.
+	{
+		lp := r.Local()
+		job := 1
+		for _, pop := range []int{300, 1100, 4200} {
+			if pop > 1100 && !ctx.Thorough {
+				continue
+			}
+			for _, a := range []int{2, 12, 1, 11} {
+				job++
+				if !inShard(job) {
+					continue
+				}
+				mk := func(i int) c07op {
+					var k [16]byte
+					for j := range k {
+						k[j] = byte(i>>uint(8*(j%3))) ^ byte(j*29) ^ byte(a)
+					}
+					return c07op{a, k, uint32(i), uint8(i % 32), uint8(i & 1), 9 + i%23, i % 3}
+				}
+				order := make([]int, 0, 3*pop)
+				for i := 0; i < pop; i++ {
+					order = append(order, i)
+				}
+				for i := 0; i < pop; i++ {
+					order = append(order, i)
+				}
+				for i := pop - 1; i >= 0; i-- {
+					order = append(order, i)
+				}
+				for step, i := range order {
+					o := mk(i)
+					_, key, detail := c07run(o)
+					lp.CaseN(true, uint64(a)<<32|uint64(step))
+					if key != "" {
+						r.Violate("key-population/"+key, fmt.Sprintf("%d distinct keys, each used once, then again, then in reverse: step %d (key %d) %s", pop, step, i, o.String()), trunc(detail, 300), nil)
+						break
+					}
+				}
+			}
+		}
+		lp.Merge()
+		if !ctx.IsChild() {
+			r.Sample("key population: 1100 distinct keys used for NEA2, then all again, then in reverse order")
+		}
+	}
+	if ctx.IsChild() {
+		return
+	}
 
 	// Part 3: snow3g entry points directly (keystream words), and the tables.
 	lt := r.Local()
